@@ -227,7 +227,7 @@ value.to_ne_bytes()
         ensures r.v() == evm_exp(self.v(), rhs.v()),      //@ob C09.kw.exp
 //@proof entry
         proof { broadcast use u_range; }
-//@loop 1
+//@loop 1 kind=while
             invariant
                 u(zero) == 0,
                 (u(result) * pow(u(base) as int, u(exponent))) % (M() as int) == pow(u(self.value) as int, u(rhs.value)) % (M() as int),
